@@ -19,7 +19,7 @@ RULES = {
     'E6': contracts.rule_E6, 'E7': contracts.rule_E7, 'D2': contracts.rule_D2, 'E9': contracts.rule_E9, 'E4': contracts.rule_E4,
     'E10': contracts.rule_E10, 'E11': contracts.rule_E11, 'OPT': contracts.rule_OPT, 'OPTDEP': contracts.rule_OPTDEP, 'EQ1': contracts.rule_EQ1, 'ITER1': contracts.rule_ITER1,
     'C': stream.rule_C, 'POSW': stream.rule_POSW, 'B1': stream.rule_B1, 'POST': stream.rule_POST, 'RB': stream.rule_RB, 'NOMOVE': stream.rule_NOMOVE,
-    'I': dims.rule_I, 'B3': dims.rule_B3, 'N2a': dims.rule_N2a, 'IDX': dims.rule_IDX, 'TY1': dims.rule_TY1,
+    'I': dims.rule_I, 'B3': dims.rule_B3, 'N2a': dims.rule_N2a, 'IDX': dims.rule_IDX, 'TY1': dims.rule_TY1, 'XDT': dims.rule_XDT,
     'B2': mutate.rule_B2, 'WB': mutate.rule_WB, 'N1': mutate.rule_N1, 'N2': mutate.rule_N2, 'N5': mutate.rule_N5, 'D5': mutate.rule_D5, 'RNG': mutate.rule_RNG, 'IDX1': mutate.rule_IDX1, 'SLN': mutate.rule_SLN,
     'E5': ingest.rule_E5, 'CHOKE': ingest.rule_CHOKE, 'LV': ingest.rule_LV, 'WIN': ingest.rule_WIN,
     'G2': mode.rule_G2, 'MIRROR': mode.rule_MIRROR, 'G3': mode.rule_G3, 'G5': mode.rule_G5, 'E8': mode.rule_E8,
@@ -246,7 +246,7 @@ _p('C03', ['B2', 'WB', 'N1', 'B1', 'E2', 'E11', 'OPT', 'G5', 'A3', 'F2', 'RNG', 
                "for write loops from the validated window, dominating-guard facts for helper asserts.",
    floors={'B2': 40})
 
-_p('C14', ['I', 'IDX', 'TY1', 'B3', 'B2', 'N2a', 'A9', 'N4'],
+_p('C14', ['I', 'IDX', 'TY1', 'XDT', 'B3', 'B2', 'N2a', 'A9', 'N4'],
    decided=["item i occupies bits [i*w, (i+1)*w) with w in bits for every fixed-length dtype incl. byte-multiplier ones: "
             "bit counts (len of data, Dtype.bitlength, itemsize), unit counts (Dtype.length) and item counts are never "
             "mixed in array_.py (three-sorted dimension analysis of every arithmetic, comparison, slice bound, position)",
@@ -254,6 +254,8 @@ _p('C14', ['I', 'IDX', 'TY1', 'B3', 'B2', 'N2a', 'A9', 'N4'],
             "validate before they change anything",
             "zero-width items are impossible (the dtype writer rejects them before installing)",
             "copies and slices of an Array own their data",
+            "raw item data crosses from another Array / array.array into self.data (extend, equals, any splice) only under a dtype "
+            "test covering name, width and scale, so the range check of _create_element is never bypassed and equals() compares items",
             "every method that turns an item index into a bit offset first normalises a negative index by the item count (sibling agreement), items are never addressed from the end of the buffer; numeric-only calls are not applied to non-numeric element values"],
    declined=["agreement of every list operation and operator result with the Python list model; promotion rules as "
              "values (run-time)"],
@@ -310,7 +312,7 @@ _p('C12', ['G1', 'G2', 'G3', 'G5', 'E8', 'E5', 'E9', 'N1', 'F2', 'IDX1', 'RNG', 
                "of slot variants.",
    floors={'G1': 13, 'E8': 13})
 
-_p('C15', ['CHOKE', 'E5', 'WIN', 'E4', 'LV', 'H3', 'H2', 'H4', 'B2', 'D2', 'N2a', 'F2', 'OPT'],
+_p('C15', ['CHOKE', 'E5', 'WIN', 'XDT', 'E4', 'LV', 'H3', 'H2', 'H4', 'B2', 'D2', 'N2a', 'F2', 'OPT'],
    decided=["a length that is zero (integers), negative or not allowed for the type raises: Dtype objects are created only "
             "through get_dtype behind the allowed-length and non-negativity tests; integer/bfloat/float setters reject "
             "missing, zero or off-table lengths; registry allowed_lengths for floats, bfloat, bool, 8/6/4-bit floats, "
